@@ -202,10 +202,19 @@ func H_C13_Stream() {
 		}
 	}
 	conn := &vConn{in: in, frag: vPick(2), hang: vBool()}
+	// concurrent push/pull cap: the counter may already be at or just below the documented limit
+	pending := uint32(0)
+	if len(in) > 0 && in[0] == byte(pushPullMsg) {
+		pending = uint32([]int{0, maxPushPullRequests - 2, maxPushPullRequests - 1}[vPick(3)])
+	}
+	f.m.pushPullReq.Store(pending)
 	f.m.handleConn(conn)
 	vAssert(conn.closed >= 1, "c13.str.closed")
 	vAssert(conn.readsBeforeDeadline == 0, "c13.str.deadline-before-read")
-	vAssert(f.m.pushPullReq.Load() == 0, "c13.str.pushpull-counter-restored")
+	vAssert(f.m.pushPullReq.Load() == pending, "c13.str.pushpull-counter-restored")
+	if pending == maxPushPullRequests-1 {
+		vAssert(len(f.m.nodes) == 1 && len(f.del.merged) == 0, "c13.str.pushpull-cap-refuses")
+	}
 	vAssert(f.vIsMember(vSelf), "c13.str.self-still-listed")
 	vAssert(conn.writes <= 2, "c13.str.bounded-reply")
 	vCover("c13.str.survived")
@@ -268,6 +277,20 @@ func H_C14_Packet() {
 		vAssert(cb.Keyring.RemoveKey(key) == nil, "c14.pkt.retire-key")
 		kv = 2
 	}
+	// receiver that delegates the label check to an outer layer (SkipInboundLabelCheck): the header has been
+	// stripped before the packet reaches it, but its own label is still the associated data
+	//   skip 1: genuine traffic of its own cluster, header stripped   -> accepted
+	//   skip 2: traffic sealed by a sender with NO label, same key     -> must be dropped
+	skip := 0
+	if label != "" {
+		skip = vPick(3)
+	}
+	if skip != 0 {
+		cb.SkipInboundLabelCheck = true
+	}
+	if skip == 2 {
+		ca.Label = ""
+	}
 	fa, fb := vNewML(ca), vNewML(cb)
 	fb.vAddSelfNamed(vPeerA)
 	n := []int{0, 15, 17}[vPick(3)]
@@ -276,6 +299,21 @@ func H_C14_Packet() {
 	vAssert(fa.m.rawSendMsgPacket(to, &Node{PMax: 2}, append([]byte{byte(userMsg)}, p1...)) == nil, "c14.pkt.send-ok")
 	vAssert(fa.m.rawSendMsgPacket(to, &Node{PMax: 2}, append([]byte{byte(userMsg)}, p2...)) == nil, "c14.pkt.send2-ok")
 	wire, wire2 := fa.tr.packets[0], fa.tr.packets[1]
+	if skip != 0 {
+		if skip == 1 {
+			lo := labelOverhead(label)
+			wire, wire2 = wire[lo:], wire2[lo:]
+		}
+		fb.m.ingestPacket(append([]byte(nil), wire...), vAddr("10.0.0.66:1"), time.Time{})
+		h, delivered := fb.m.getNextMessage()
+		if skip == 1 && kv != 2 {
+			vAssert(delivered && h.msgType == userMsg && vEqBytes(h.buf, p1), "c14.pkt.skip.own-cluster-accepted")
+		} else {
+			vAssert(!delivered, "c14.pkt.skip.other-label-dropped")
+		}
+		vCover("c14.pkt.skip")
+		return
+	}
 	atk, kind, pos := vMutate(wire, wire2)
 
 	fb.m.ingestPacket(append([]byte(nil), atk...), vAddr("10.0.0.66:1"), time.Time{})
